@@ -278,6 +278,17 @@ tpt_msg_queue_destroy(tpt_msg_queue_p msg_queue) {
 	free(msg_queue);
 }
 
+void
+tpt_msg_queue_drain(tpt_msg_queue_p msg_queue) {
+	tp_event_t ev;
+
+	if (NULL == msg_queue)
+		return;
+	memset(&ev, 0x00, sizeof(ev));
+	ev.event = TP_EV_READ;
+	tpt_msg_recv_and_process(&ev, &msg_queue->udata);
+}
+
 
 int
 tpt_msg_send(tpt_p dst, tpt_p src, uint32_t flags,
